@@ -135,6 +135,20 @@ func newValue_Array(name string, kind ValueKind, typ *Array) *aArray {
 
 func (v *aArray) Type() ValueType { return v.typ }
 
+func (v *aArray) emitEq(r Value) (insts []wat.Inst, ok bool) {
+	if !v.Type().Equal(r.Type()) {
+		logger.Fatal("v.Type() != r.Type()")
+	}
+	return v.aStruct.emitEq(&r.(*aArray).aStruct)
+}
+
+func (v *aArray) emitCompare(r Value) (insts []wat.Inst) {
+	if !v.Type().Equal(r.Type()) {
+		logger.Fatal("v.Type() != r.Type()")
+	}
+	return v.aStruct.emitCompare(&r.(*aArray).aStruct)
+}
+
 func (v *aArray) emitStoreToAddr(addr Value, offset int) (insts []wat.Inst) {
 	if !addr.Type().(*Ptr).Base.Equal(v.Type()) {
 		logger.Fatal("Type not match")
